@@ -176,7 +176,7 @@ def _symbol(it):
            "rect_i": "RectCurrentSource", "tri_i": "TriangleCurrentSource", "saw_i": "SawtoothCurrentSource"}[k]
     key = "V" if k.endswith("_v") else "I"
     d_opts = {kk: p[kk] for kk in ("deg",) if kk in p}
-    return getattr(elm, cls)(p[key], p["w"], p["phi"], name, reverse=rev, **d_opts)
+    return getattr(elm, cls)(**{key: p[key]}, w=p["w"], phi=p["phi"], name=name, reverse=rev, **d_opts)
 
 
 def lattice_point(xy, geom):
@@ -189,9 +189,10 @@ def lattice_point(xy, geom):
     return (ox + u * (c * x - s * y), oy + u * (s * x + c * y))
 
 
-def build_schematic(program, geom=None, style="to"):
-    """Build the real Schematic for a lattice placement program.  style: 'to' (at/to), 'dir' (at/direction/length),
-    'chain' (direction only where an item starts where the previous one ended, 'dir' otherwise)."""
+def build_schematic(program, geom=None, style="dir"):
+    """Build the real Schematic for a lattice placement program.  style: 'dir' (at/direction/length), 'chain' (direction only
+    where an item starts where the previous one ended, 'dir' otherwise).  ('to' = at/to is kept for experiments only: plain
+    schemdraw source symbols ignore .to(), which is outside the library under test.)"""
     import CircuitCalculator.SimpleCircuit.Elements as elm
     geom = geom or {}
     d = elm.Schematic(unit=geom.get("unit", 2))
